@@ -8,6 +8,7 @@ CONSTANTS t1, t2, t3, r1, r2, r3, r4, a, b, o1, o2, v0, v1, bad, unk
 
 OwnerMap == (r1 :> t1) @@ (r2 :> t2) @@ (r3 :> t2) @@ (r4 :> t3)
 Def2     == (o1 :> v0) @@ (o2 :> v0)
+HeapId   == [c \in {v0, v1, bad} |-> c]
 Nest3    == (t1 :> 2) @@ (t2 :> 2) @@ (t3 :> 2)
 E        == <<>>
 Edit(r, n, o, ov, fault, nest) == [k |-> "edit", r |-> r, n |-> n, o |-> o, ov |-> ov, fault |-> fault, nest |-> nest]
